@@ -166,5 +166,11 @@ def generic_resolver(mf, crate_prefixes):
             out = [n for n in out if mf.func(n).locals.get(1, "").strip().startswith("&") == by_ref]
         if len(out) == 1:
             return out[0]
+        if not out and self_ty is not None:
+            # associated function without `self` whose signature does not mention the type (e.g. `Type::is_xyz(&str) -> bool`):
+            # accept when the method name is unique in the crate
+            uniq = [n for n in cands if "impl at" in n and (nargs is None or mf.func(n).nargs == nargs)]
+            if len(uniq) == 1 and len(cands) == 1:
+                return uniq[0]
         return None
     return resolve
